@@ -61,6 +61,9 @@ class Gen:
         r = self.r
         if self.family == "storm":
             return r.choice([0, 0, 1000000, 1000000, 1000000, -5, 2000000])
+        if self.family == "deadline" and r.random() < 0.04:
+            # decades ahead ("never"): more than 2^31 and 2^32 seconds from now
+            return r.choice([3155760000 * 10**9, 2200000000 * 10**9, 4300000000 * 10**9])
         return r.choice([0, 0, 1, 999999, 1000000, 1000001, 5000000, 5000000, 5000000, 70000000, 3000000000, -5, -2000000000,
                          r.randrange(0, 20000000)])
 
@@ -469,6 +472,14 @@ def ktimer_cases(seed, methods=METHODS):
                 L.append(f"at {k + idle} : wr f0 1")
                 L += ["do reg f0 100 ; reg f1 100 ; trel t0 60000000", "main"]
                 cases.append((f"ktimer-{METHOD_NAME[m]}-k{k}-spent{vi}", L))
+        # a timer decades ahead (beyond 2^31 / 2^32 seconds) registered next to a near one, before and after it: only the near one fires, the
+        # far one neither fires early nor disturbs the order
+        for vi, far in enumerate([3155760000 * 10**9, 2200000000 * 10**9, 4300000000 * 10**9]):
+            for order in (0, 1):
+                regs = [f"trel t0 {far}", "trel t1 5000000"]
+                L = ([f"exclude {m}"] if m else []) + ["cfg waitlimit=12 cblimit=60", "obj timer t0", "obj timer t1", "obj timer t2",
+                     "on t1 1 : trel t2 3000000", "on t2 1 : tunreg t0", "do " + " ; ".join(regs[::-1] if order else regs), "main"]
+                cases.append((f"ktimer-{METHOD_NAME[m]}-far{vi}-{order}", L))
         # deadlines whose distance from `now` is not a whole number of milliseconds, with no other activity: millisecond-granular waits
         # (poll, epoll_wait fallback) must round up, so that one wake-up suffices
         for vi, d in enumerate([20900000, 1000001, 999999, 1, 2000500, 1999999999]):
